@@ -104,10 +104,13 @@ def run(ctx):
         calls.append((24, [w_nodes(lst), T]))
         meta.append((canon(rv, T), T, pat))
     # worker-made nodes in the list that is re-duplicated (an accepted candidate keeps the ancestors a worker re-created)
-    ncase, probs = nc.cross_process_probe(impl, rng, 12 if ctx.thorough else 4)
+    ncase, probs = nc.cross_process_probe(impl, rng, 12 if ctx.thorough else 4, model=model)
     ctx.count('cross-process reduplicate rounds', ncase)
     for pr in probs:
-        ctx.violation('impl-violation', op=pr['op'], input=json.dumps(pr['input']), observed=pr['observed'][:800], expected=pr['expected'])
+        if pr.get('kind') == 'disagree':
+            ctx.disagree(pr['op'], input=json.dumps(pr['input']), impl=pr['observed'][:800], model=pr['expected'][:800])
+        else:
+            ctx.violation('impl-violation', op=pr['op'], input=json.dumps(pr['input']), observed=pr['observed'][:800], expected=pr['expected'])
     res = model.batch(calls)
     for (want, T, pat), (f, arg), got in zip(meta, calls, res):
         mv = canon([r_node(x) for x in got], T)
